@@ -2,8 +2,9 @@ package props
 
 import (
 	"fmt"
-	"strings"
 	"go/token"
+	"go/types"
+	"strings"
 
 	"golang.org/x/tools/go/ssa"
 
@@ -28,6 +29,9 @@ func checkC09(c *chk.Ctx) {
 		"R09c trimming is only driven by the trimmer and bounded by the commit offset",
 		"R09e a writable segment is flushed before it is unmapped; an offset is marked synced only after a successful flush",
 		"R09f in-segment truncation clears the whole discarded tail",
+		"R09k sync rounds: requests received before the appended offset is read; flush skipped only against the synced offset read in that round (shared with C01/C03/C04/C08)",
+		"R09j the list of segment base offsets is sorted numerically before recovery uses it positionally (shared with C10)",
+		"R09i the segments group takes the caller's reference on a cached read-only segment before anything that can evict (close) cached segments runs, so a segment is never handed out closed",
 		"R09h segment trimming only removes segments whose base offset is provably below the trim offset (difference bound), so the segment holding the trim offset survives",
 	}
 	c.NotDec = []string{
@@ -42,6 +46,9 @@ func checkC09(c *chk.Ctx) {
 	ruleR01f(h, "R09g")
 	ruleTruncateClearsTail(h, "R09f")
 	ruleR09h(h)
+	ruleR09i(h)
+	ruleSegmentListSorted(h, "R09j")
+	ruleSyncCompletionsCovered(h, "R09k")
 }
 
 // mayBeNil: the (resolved) error operand of a return is not provably non-nil.
@@ -532,5 +539,92 @@ func ruleR09h(h *H) {
 		if n == 0 {
 			h.Anchor(rule, "removal of segments in "+ir.FuncName(fn))
 		}
+	}
+}
+
+// ruleR09i: ownership of read-only segments. The group keeps one reference per cached
+// segment and hands an additional one to each reader. The reader's reference must be
+// taken (Acquire) before any step that can drop the cache's reference (eviction closes
+// the RefCount): otherwise the segment that is returned may already be closed and
+// unmapped, and reads through it fail although the offset is in the log.
+func ruleR09i(h *H) {
+	const rule = "R09i"
+	h.Rule(rule, "K1", "in the ReadOnlySegmentsGroup implementation every returned RefCount is the result of Acquire(), and no call that can close cached RefCounts can execute before that Acquire", 2)
+	isRefCount := func(t types.Type) bool {
+		n, ok := types.Unalias(t).(*types.Named)
+		return ok && n.Obj().Name() == "RefCount" && n.Obj().Pkg() != nil && strings.HasSuffix(n.Obj().Pkg().Path(), "common/object")
+	}
+	closesRef := func(c *ssa.CallCommon) bool {
+		return c.IsInvoke() && c.Method.Name() == "Close" && isRefCount(c.Value.Type())
+	}
+	n := 0
+	for _, t := range h.P.Impls("server/wal", "ReadOnlySegmentsGroup") {
+		for _, fn := range h.P.Funcs {
+			if fn.Parent() != nil || fn.Signature.Recv() == nil || !ir.TypeIs(fn.Signature.Recv().Type(), "server/wal", t.Obj().Name()) {
+				continue
+			}
+			res := fn.Signature.Results()
+			if res.Len() == 0 || !isRefCount(res.At(0).Type()) {
+				continue
+			}
+			h.Fn(ir.FuncName(fn))
+			var evictions []ssa.Instruction
+			ir.Instrs(fn, func(in ssa.Instruction) {
+				if ci, ok := in.(ssa.CallInstruction); ok && !closesRef(ci.Common()) && h.P.CallStaticallyReaches(ci, closesRef) {
+					evictions = append(evictions, in)
+				}
+			})
+			i := 0
+			ir.Instrs(fn, func(in ssa.Instruction) {
+				ret, ok := in.(*ssa.Return)
+				if !ok || in.Block() == fn.Recover {
+					return
+				}
+				v := ir.Canon(ir.ReturnValues(ret)[0])
+				if isNilConst(v) {
+					return
+				}
+				i++
+				n++
+				name := fmt.Sprintf("reference handed out #%d by %s", i, ir.FuncName(fn))
+				acq, isCall := v.(*ssa.Call)
+				if isCall && !acq.Call.IsInvoke() {
+					// a freshly created reference that is not shared with the cache belongs to the caller
+					if f := acq.Call.StaticCallee(); f != nil && strings.HasPrefix(f.Name(), "NewRefCount") {
+						shared := false
+						if acq.Referrers() != nil {
+							for _, r := range *acq.Referrers() {
+								if ci, ok := r.(ssa.CallInstruction); ok && ci != ssa.CallInstruction(acq) {
+									shared = true
+								}
+								if st, ok := r.(*ssa.Store); ok {
+									if _, local := st.Addr.(*ssa.Alloc); !local {
+										shared = true
+									}
+								}
+							}
+						}
+						if !shared {
+							h.OK(rule, name, h.pos(in), "a fresh reference that is not kept by the group")
+							return
+						}
+					}
+				}
+				if !isCall || !acq.Call.IsInvoke() || acq.Call.Method.Name() != "Acquire" || !isRefCount(acq.Call.Value.Type()) {
+					h.Bad(rule, name, h.pos(in), "the returned reference is "+ir.Describe(v)+", not the result of RefCount.Acquire(): the caller's Close would drop the cache's own reference")
+					return
+				}
+				bad := ""
+				for _, e := range evictions {
+					if r, _ := ir.Reach(ir.Search{From: e}, ir.Is(acq)); r {
+						bad = "the caller's reference is acquired at " + h.pos(acq) + " only after " + describeCallee(e.(ssa.CallInstruction).Common()) + " (" + h.pos(e) + "), which can close cached segments: when the segment just opened is the eviction victim it is returned closed and unmapped"
+					}
+				}
+				h.Verdict(bad == "", rule, name, h.pos(in), "Acquire() precedes every step that can evict cached segments", bad)
+			})
+		}
+	}
+	if n == 0 {
+		h.Anchor(rule, "methods of the ReadOnlySegmentsGroup implementation returning object.RefCount")
 	}
 }
